@@ -436,3 +436,25 @@ def gen_tied_psms(rng, db, n_exp=1, levels=None):
                          "charge": rng.choice([2, 2, 3]), "intensity": rng.randint(1, 2000) * 1000, "fraction": 1})
     rng.shuffle(psms)
     return psms
+
+
+def gen_triangle_database(rng, n_tri=None, n_plain=None):
+    """[(id, sequence)]: 3-5 TRIANGLES of proteins without a peptide of their own (a-b, b-c, c-a each share one
+    peptide, so within a triangle every protein has the same number of shared peptides and the same degree in the
+    peptide-protein graph) plus a few ordinary proteins with peptides of their own.  Several connected components of
+    groups without unique peptides with tied members: what the rescue step / pseudo-gene grouping hand to the graph
+    code (component order, leading protein of a merged group)."""
+    used = set()
+    db = []
+    k = 0
+    for t in range(n_tri or rng.randint(3, 5)):
+        ab, bc, ca = (make_peptide(rng, used) for _ in range(3))
+        for seq in (ab + ca, ab + bc, bc + ca):
+            k += 1
+            db.append(("T%d" % k, seq))
+    for i in range(n_plain if n_plain is not None else rng.randint(3, 6)):
+        db.append(("P%d" % (i + 1), "".join(make_peptide(rng, used) for _ in range(rng.choice([1, 2])))))
+    rng.shuffle(db)
+    if rng.random() < 0.5:
+        db = [("sp|Q%05d|%s_HUMAN" % (rng.randint(0, 99999), pid), seq) for pid, seq in db]
+    return db
